@@ -1,7 +1,7 @@
 package main
 
 func init() {
-	for _, id := range []string{"C04", "C07", "C10", "C11", "C15", "C19", "C20"} {
+	for _, id := range []string{"C04", "C07", "C11", "C15", "C20"} {
 		notApplicable[id] = "not yet claimed: contracts for this property are still being written (see DESIGN.md); no check is registered"
 	}
 	notApplicable["C12"] = "command/response matching lives in goroutine, channel and timer interplay (onActiveEvent/onActiveRespondEvent/write); no sequential function contract within the verifier's subset carries the claim"
@@ -157,6 +157,54 @@ func init() {
 			"the number of returned messages equals the number of stale transfers (a cardinality over the map iteration)",
 			"the returned Message's decoded header (Decode of the just-encoded frame; needs the Decode-after-Encode inverse, see C01)",
 			"a discarded transfer is never delivered later: whole-history statement (per call: its slots are gone from both tables)",
+		},
+	})
+}
+
+func init() {
+	registerProp(&PropDef{
+		ID:    "C19",
+		Title: "Stored attachments stay inside the terminal's directory",
+		Roots: []string{"attachment.(*fileEvent).OnEvent"},
+		Decided: "at the only os.WriteFile call of the default file handler: the path is \"./\" + phone + \"/\" + name for the key under which the file was recorded, and the name is a single path component " +
+			"(no '/' or '\\\\', not empty, not \".\" or \"..\"), for every record map and every phone string; plus absence of panics in OnEvent for every stage and every progress record",
+		Undecided: []string{
+			"that record keys come verbatim from 0x1210 items (standardJT808DataHandle.OnPackageProgressEvent: interface dispatch) - the clause above holds for arbitrary keys, so it does not matter",
+			"the phone string itself (BCD digits rendered by the frame decoder) is not constrained here; os.MkdirAll/WriteFile semantics (symlinks in the working directory) are outside the model",
+		},
+	})
+}
+
+func init() {
+	registerProp(&PropDef{
+		ID:    "C10",
+		Title: "Hostile input is contained to its own connection (both servers)",
+		Roots: []string{
+			// JT808 server, reader path: frame extraction, decoding, sub-package bookkeeping
+			"service.(*packageParse).unpack", "service.(*packageParse).completePack", "service.(*packageParse).deleteTimeoutPackage",
+			"service.(*packageParse).supplementarySubPackage", "service.(*packageParse).add", "service.(*packageParse).remove", "service.(*packageParse).clear",
+			"service.(*Message).hasComplete", "service.newTerminalMessage",
+			"jt808.unescape", "jt808.(*BodyProperty).decode", "jt808.(*Header).decode", "jt808.(*JTMessage).Decode",
+			"utils.CreateVerifyCode", "utils.Bcd2Dec", "utils.bcdConvert",
+			// attachment server: control-frame extraction, chunk headers, completion report, end-of-session handler
+			"attachment.(*PackageProgress).parseJT808Message", "attachment.(*PackageProgress).hasJT808Reply",
+			"attachment.(*baseStreamDataHandle).HasStreamData", "attachment.(*baseStreamDataHandle).HasMinHeadLen", "attachment.(*baseStreamDataHandle).Parse",
+			"attachment.(*baseStreamDataHandle).GetDataOffsetAndLen", "attachment.(*baseStreamDataHandle).GetFileName",
+			"attachment.(*heiBiaoStreamDataHandle).HasMinHeadLen", "attachment.(*heiBiaoStreamDataHandle).Parse",
+			"attachment.(*Package).StatisticalMissSegments!safety", "attachment.(*standardJT808DataHandle).OnPackageProgressEvent!safety",
+			"attachment.(*fileEvent).OnEvent",
+			"model.(*T0x1210).Parse", "model.(*T0x1211).Parse", "model.(*T0x1212).Parse", "model.(*T0x1212).ReplyBody", "model.(*P0x9212).Encode",
+		},
+		Decided: "absence of panics (index, slice, nil dereference, nil map write, conversion, division, make, explicit panic) and of reads beyond len() in every function listed, for every input the type system admits: " +
+			"the JT808 reader path from raw bytes to messages (unpack, Decode and its helpers, sub-package table operations including package numbers 0 and beyond the total, expiry and re-request), " +
+			"and the attachment server's control-frame extraction, both chunk-header parsers (given the minimum length their callers check), the missing-range computation and the 0x1212 handler for arbitrary (also inconsistent) chunk maps, " +
+			"the 0x1210/0x1211/0x1212 body parsers, the 0x9212 reply, and the end-of-session file handler for every stage including a session that ends before any frame. " +
+			"A panic in any of these would end the whole process, because connection goroutines have no recover. Message-body parsers called by handlers are covered by C03",
+		Undecided: []string{
+			"goroutine/channel code: connection.reader/write/stop, sessionManager, attachment connection.run (accept loops, close/reset timing, effects on other sessions)",
+			"functions that dispatch through interfaces or generics: PackageProgress.iter/stageStreamData/stageJT808Data, BaseJT808DataHandler.Parse/ReplyData, connection.defaultReplyEvent, Message.Parse",
+			"the preconditions assumed of call sites outside the verified set: OnEvent's (a message is present in non-final stages, CurrentPackage is set in chunk stages, records are non-nil), the chunk parsers' minimum length, the handler's non-nil message objects",
+			"packageParse.parse as a composition (its callees are verified one by one)",
 		},
 	})
 }
